@@ -319,6 +319,11 @@ impl Session {
     pub fn load_text(name: &str, mut text: Vec<u8>) -> Result<Session, String> {
         text.push(0);
         let mut loader = crate::load::Loader::new();
+        // like load::read, the manifest itself is the first file of the graph
+        loader
+            .graph
+            .files
+            .id_from_canonical(crate::canon::to_owned_canon_path(name));
         let mut parser = crate::parse::Parser::new(&text);
         loader
             .parse_with_parser(&mut parser, PathBuf::from(name), &[])
